@@ -113,7 +113,7 @@ func (g *Gen) Fact() map[string]interface{} {
 			}
 			dw = append(dw, t)
 		}
-		if g.R.Intn(6) == 0 {
+		if !g.Homogeneous && g.R.Intn(6) == 0 { // in facts, not in events made the same way
 			dw = append([]interface{}{17.0}, dw...) // something that is no id stands first
 		}
 		m["deleteWith"] = dw
